@@ -43,6 +43,7 @@ func compileDirect(src string, peephole bool) (dp *directProgram, err error) {
 	}
 	activation := sema.NewVariableActivation(sema.BaseValueActivation)
 	activation.DeclareValue(stdlib.VMPanicFunction)
+	activation.DeclareValue(stdlib.VMAssertFunction)
 	activation.DeclareValue(stdlib.NewVMLogFunction(nil))
 	checker, err := sema.NewChecker(program, directLocation, nil, &sema.Config{
 		AccessCheckMode:            sema.AccessCheckModeStrict,
@@ -61,6 +62,7 @@ func compileDirect(src string, peephole bool) (dp *directProgram, err error) {
 			a := activations.NewActivation(nil, compiler.DefaultBuiltinGlobals())
 			a.Set(stdlib.LogFunctionName, compiler.NewGlobalImport(stdlib.LogFunctionName))
 			a.Set(stdlib.PanicFunctionName, compiler.NewGlobalImport(stdlib.PanicFunctionName))
+			a.Set(stdlib.AssertFunctionName, compiler.NewGlobalImport(stdlib.AssertFunctionName))
 			return a
 		},
 	}
@@ -85,6 +87,9 @@ func runDirect(dp *directProgram) (o lib.Outcome) {
 		pv := &interpreter.SimpleVariable{}
 		pv.InitializeWithValue(stdlib.VMPanicFunction.Value)
 		a.Set(stdlib.PanicFunctionName, pv)
+		av := &interpreter.SimpleVariable{}
+		av.InitializeWithValue(stdlib.VMAssertFunction.Value)
+		a.Set(stdlib.AssertFunctionName, av)
 		return a
 	}
 	cfg.ElaborationResolver = func(common.Location) (*sema.Elaboration, error) {
